@@ -409,3 +409,79 @@ def table_cycle(ck, F):
         else:
             ck.ob(R, "cycle_endpoint|other-append %s" % k, False, "unexpected mutation `%s` of the result" % k, f, l)
     ck.ob(R, "cycle_endpoint|append-sites", len(pushes) == 4, "expected 2 '$' pushes, the column and the row, found %s" % kinds, ce.file, ce.line)
+
+
+def char_units(ck, F, rule="CHAR-UNITS"):
+    """The formula lexer indexes a Vec<char>: `position` counts characters.  No byte length (`str::len`, `String::len`)
+    of a non-literal string flows into a write of Lexer.position -- localized names (#ÜBERLAUF!, #¡REF!) are not ASCII;
+    lengths of ASCII literals are the same in both units."""
+    from mir import op_place, place_proj, const_str
+    LEXER = "ironcalc_base::expressions::lexer::Lexer"
+    n = 0
+    for path in sorted(F.body_paths()):
+        h = F.heads[path]
+        if h.get("impl_adt") != LEXER:
+            continue
+        b = F.body(path)
+        # locals feeding a store to Lexer.position
+        work = []
+        for bi, si, s in b.stmts():
+            if not place_proj(s["p"]):
+                continue
+            rp = b.resolve_place(s["p"])
+            fs = [e for e in place_proj(rp) if e[0] == "f"]
+            if fs and (fs[-1][3], fs[-1][2]) == (LEXER, "position"):
+                from mir import rvalue_operands
+                for o in rvalue_operands(s["rv"]):
+                    q = op_place(o)
+                    if q is not None:
+                        work.append(q["l"])
+        if not work:
+            continue
+        seen = set()
+        byte_lens = []
+        while work:
+            l = work.pop()
+            if l in seen or 1 <= l <= b.nargs:
+                continue
+            seen.add(l)
+            for bi, si in b.defs().get(l, []):
+                if si == "t":
+                    t = b.blocks[bi]["t"]
+                    q = b.callee_q(t) or ""
+                    last = q.rsplit("::", 1)[-1]
+                    if last == "len" and ("str" in q or "string::String" in q) and "slice" not in q and "vec" not in q:
+                        byte_lens.append((bi, t))
+                        continue
+                    if q.startswith("ironcalc_base::"):
+                        continue
+                    for a in t["args"]:
+                        pa = op_place(a)
+                        if pa is not None:
+                            work.append(pa["l"])
+                else:
+                    from mir import rvalue_operands
+                    rv = b.blocks[bi]["s"][si]["rv"]
+                    for o in rvalue_operands(rv):
+                        pa = op_place(o)
+                        if pa is not None:
+                            work.append(pa["l"])
+                    if rv["k"] in ("ref", "rawptr"):
+                        work.append(rv["p"]["l"])
+        qn = b.qname.split("::", 1)[-1]
+        n += 1
+        ck.ob(rule, "%s|position-writes" % qn, True, sample={"fn": qn, "byte_lengths_in_slice": len(byte_lens)})
+        k = 0
+        for bi, t in byte_lens:
+            k += 1
+            r = b.trace(t["args"][0]) if t["args"] else {"kind": "unknown"}
+            lit = const_str(r["const"]) if r["kind"] == "const" and isinstance(r.get("const"), dict) and "s" in r["const"] else None
+            if lit is None and t["args"]:
+                from rules_panic import _const_str
+                lit = _const_str(b, t["args"][0])
+            ok = lit is not None and all(ord(c) < 128 for c in lit)
+            f, l = b.loc(bi)
+            ck.ob(rule, "%s|byte-length#%d" % (qn, k), ok,
+                  "%s advances `position` (a character index) by the byte length of a string that is not an ASCII literal: a localized "
+                  "name with non-ASCII letters makes the lexer skip characters after it" % qn, f, l, sample={"fn": qn, "literal": lit})
+    ck.note("lexer_bodies_writing_position", n)
